@@ -61,6 +61,12 @@ func genCase(r *rand.Rand, st strategy) ([]nb, int) {
 		}
 		bs[i] = b
 	}
+	if strings.HasPrefix(st.Name, "synccommitteecontribution/") {
+		quiet := r.Intn(5) == 0 // a quiet subnet: nobody has anything
+		for i := range bs {
+			bs[i].Zero = quiet || r.Intn(6) == 0
+		}
+	}
 	th := 1 + r.Intn(n)
 	return bs, th
 }
@@ -91,7 +97,11 @@ func judge(c *harness.Ctx, id string, st strategy, bs []nb, th int, nodes []*fno
 			}
 		}
 		if at > 0 && (n.b.Kind == "valid" || n.b.Kind == "invalid") {
-			reps = append(reps, reply{node: i, key: n.key(), rank: n.b.Rank, val: n.b.Val, at: at, valid: n.b.Kind == "valid"})
+			rank := n.b.Rank
+			if n.b.Zero {
+				rank = -1 // no participation: any contribution with a bit set scores higher
+			}
+			reps = append(reps, reply{node: i, key: n.key(), rank: rank, val: n.b.Val, at: at, valid: n.b.Kind == "valid"})
 		}
 	}
 	detail["measured"] = measured
